@@ -415,15 +415,18 @@ Proof.
     destruct i1 as [i1|], i2 as [i2|]; simpl in Hi; try contradiction.
     + destruct Hi as [Ee Hv]. rewrite Ee. destruct (is_evaluating i2).
       * apply rel_add_err. now apply IH.
-      * assert (HV : lo_c (match is_value i1 with Some v => v | None => [] end) (match is_value i2 with Some v => v | None => [] end)).
-        { destruct (is_value i1), (is_value i2); simpl in Hv; try contradiction; [exact Hv|constructor]. }
+      * destruct (is_value i1) as [v1|], (is_value i2) as [v2|]; simpl in Hv; try contradiction; [|now apply IH].
         apply IH; [destruct merge; [now apply Forall2_app|exact Hb]|now apply ainsert_rel].
     + apply rel_call; [apply HW|]. intros failed. apply rel_emit; [constructor|].
       pose proof (envs_lookup n) as HL.
-      destruct failed; [apply rel_add_err; now apply IH|].
+      assert (Lfail : mrel imp_res_rel
+                (err ;;; imps_set n {| is_evaluating := false; is_value := None |} ;;; imports_go W1 f root' rest base1 my1)
+                (err ;;; imps_set n {| is_evaluating := false; is_value := None |} ;;; imports_go W2 f root' rest base2 my2)).
+      { apply rel_add_err. apply rel_imps_set; [split; [reflexivity|exact I]|]. now apply IH. }
+      destruct failed; [exact Lfail|].
       destruct (alookup n (w_envs W1)) as [l1|], (alookup n (w_envs W2)) as [l2|]; simpl in HL; try contradiction;
-        [|apply rel_add_err; now apply IH].
-      destruct l1 as [| |d1], l2 as [| |d2]; simpl in HL; try contradiction; try (apply rel_add_err; now apply IH).
+        [|exact Lfail].
+      destruct l1 as [| |d1], l2 as [| |d2]; simpl in HL; try contradiction; try exact Lfail.
       rel_bind_with (Forall2 lo_l); [now apply HEnv|].
       intros v1 v2 Hv. apply rel_imps_set; [split; [reflexivity|exact Hv]|].
       apply IH; [destruct merge; [now apply Forall2_app|exact Hb]|now apply ainsert_rel].
@@ -450,7 +453,7 @@ Theorem env_invariant : forall f, P_env f.
 Proof.
   induction f as [|f IH]; intros root name d1 d2 Hd.
   - rewrite !eval_env_O. apply rel_oof.
-  - rewrite !eval_env_S. cbv zeta. set (root' := if String.eqb root "" then name else root).
+  - rewrite !eval_env_S. cbv zeta. set (root' := if String.eqb root "" || String.eqb root "<yaml>" then name else root).
     apply rel_imps_set; [split; [reflexivity|exact I]|].
     apply (rel_bind imp_res_rel).
     + destruct Hd as [Ei _]. rewrite Ei. apply rel_imports_go; [exact IH|constructor|constructor].
